@@ -106,10 +106,17 @@ def main():
         for wt in (wt_mut, wt_clean):
             sh(["git", "-C", "/repo", "worktree", "remove", "--force", wt])
             shutil.rmtree(wt, ignore_errors=True)
-        for f in os.listdir(os.path.join(VERIF, "harness")):
-            if f.startswith(".alt-"):
+        import hashlib
+        tag = hashlib.sha1(wt_mut.encode()).hexdigest()
+        for f in (".alt-%s.mod" % tag[:10], ".alt-%s.sum" % tag[:10]):  # only this run's own files: others may be running
+            try:
+                os.remove(os.path.join(VERIF, "harness", f))
+            except OSError:
+                pass
+        for f in os.listdir(os.path.join(VERIF, ".build")):
+            if f.startswith("%s-%s" % (a.prop, tag[:6])):
                 try:
-                    os.remove(os.path.join(VERIF, "harness", f))
+                    os.remove(os.path.join(VERIF, ".build", f))
                 except OSError:
                     pass
 
